@@ -269,6 +269,13 @@ def session_case(job) -> list:
     return viols
 
 
+def many_nodes_case(job) -> list:
+    """Registries as full as the id space allows (ids 0-255 all present; one missing at either end) round-trip."""
+    lo, hi = job
+    nodes = {n: Node(n, 17, "2.0", children={0: Child(0, 6, values={0: str(n)})} if n % 50 == 0 else {}) for n in range(lo, hi + 1)}
+    return [(f"C13|many-nodes-{k}", f"registry with ids {lo}..{hi} ({len(nodes)} nodes): {t}"[:600], {"many_nodes": list(job)}) for k, t in roundtrip(nodes) if not k.startswith("legacy")]
+
+
 def write_fault_case(job) -> list:
     """A save meets an OS-level error (of several classes, at open / write / close, possibly after a short write):
     it may fail with the persistence write error - but if it returns normally, the file is a file written by save
@@ -438,6 +445,7 @@ def run(ctx: core.Ctx) -> core.Report:
     ores = core.pmap(overlap_case, ojobs, ctx.workers)
     fjobs = [(e, op, k, big) for e in ("OSError", "TimeoutError", "BlockingIOError", "InterruptedError", "PermissionError") for op in ("open", "write", "close") for k in ((0, 100, 4096) if op == "write" else (0,)) for big in (False, True)]
     ores += core.pmap(write_fault_case, fjobs, ctx.workers)
+    ores += core.pmap(many_nodes_case, [(0, 255), (0, 254), (1, 255), (1, 254)], ctx.workers, chunksize=1)
     ores += core.pmap(session_case, [(v, 3) for v in (("1.4", "2.2") if ctx.quick else R.VERSIONS)], ctx.workers, chunksize=1)
     res["violations"] += [core.Violation(k, w, rep) for r in ores for k, w, rep in r]
     g, _ = grid(ctx.quick)
@@ -458,6 +466,9 @@ def run(ctx: core.Ctx) -> core.Report:
 
 
 def replay(data: dict) -> dict:
+    if "many_nodes" in data:
+        r = many_nodes_case(tuple(data["many_nodes"]))
+        return {"violated": bool(r), "violations": [{"key": k, "what": w} for k, w, _ in r]}
     if "session" in data:
         r = session_case(tuple(data["session"]))
         return {"violated": bool(r), "violations": [{"key": k, "what": w} for k, w, _ in r]}
